@@ -127,9 +127,20 @@ def constructed(rng):
     for x, y in (((-M, 0), (M, 0)), ((-P10[25], 0), (1, 18)), ((-M, 18), (P10[22], 0)), ((M, 0), (-M, 0)),
                  ((5, 1), (5, 1)), ((50, 2), (5, 1)), ((M, 0), (1, 18)), ((M, 5), (M, 5)), ((M, 5), (-1, 5))):
         out.append("nt_abssub %s %s" % (G.fD(*x), G.fD(*y)))
-    for radix in range(2, 37):
+    radices = list(range(0, 40)) + [255, 256, 257, 265, 266, 267, 10 + 512, 10 + 65536, 10 + (1 << 24), 10 + (1 << 31),
+                                    (1 << 32) - 1, (1 << 32) - 246, (1 << 32) - 256 + 10 - 256, 1 << 31, 100, 1000]
+    radices += [10 + 256 * rng.randrange(1, 1 << 24) for _ in range(20)] + [10 + 65536 * rng.randrange(1, 1 << 16) for _ in range(10)]
+    radices += [rng.getrandbits(32) for _ in range(30)]
+    for radix in radices:
         for lit in ("1", "-17.5", "1e2", "ff", "", "0.000", "١"):
             out.append("nt_radix %d %s" % (radix, E.hexs(lit)))
+    # values whose low 32 / 64 / 96 bits equal those of zero, one (10^s at scale s), minus one: predicates on a truncated
+    # coefficient
+    for s in range(19):
+        for base in (0, P10[s], -P10[s], 1, -1):
+            for t in G.trunc_twins(rng, base):
+                for op in ("preds", "nt", "fract", "trunc", "abs", "magn"):
+                    out.append("%s %s%s" % (op, G.fD(t, s), " D0:0" if op == "nt" else ""))
     return out
 
 
